@@ -104,6 +104,30 @@ def make_monitor(ctx, case):
         if _state["viol"]:
             v, _state["viol"] = _state["viol"], None
             raise RegisterLeak(v)
+
+    def nested_balanced(drv, st, OLD):
+        # an operation completed inside the body of an enclosing loop / conditional: it must neither keep a register nor give
+        # back one it did not take (the enclosing operation's counter or operand registers are live around it)
+        ctx.count("nested_operations_balanced")
+        mm = drv.conn.builder._mem_mgr
+        now = set(mm._active_registers)
+        old_r, _ = OLD.regs
+        if st["op"] != "reg" and now != old_r:
+            _state["viol"] = (f"operation {st['op']} completed inside an enclosing operation changed the set of active registers: kept "
+                              f"{sorted(map(str, now - old_r))} released {sorted(map(str, old_r - now))}")
+        return True
+
+    @icontract.snapshot(active_regs, name="regs")
+    @icontract.ensure(nested_balanced, error=RegisterLeak)
+    def issue_nested(drv, st):
+        drv.stmt(st)
+
+    def on_nested(drv, st):
+        issue_nested(drv, st)
+        if _state["viol"]:
+            v, _state["viol"] = _state["viol"], None
+            raise RegisterLeak(v)
+    on_top.nested = on_nested
     return on_top
 
 
@@ -135,6 +159,27 @@ def cases(ctx):
                 prog.append({"op": "flush"})
                 sc.regs = []
         yield {"kind": "history", "k": k, "prog": prog, "script": [rng.randrange(2) for _ in range(64)]}
+    for _ in range(ctx.n(10, 300)):
+        # register handles (from register measurements: recycled at every flush) used as add targets / operands inside loops,
+        # together with the loop's own counter and further operations that need temporaries
+        prog = [{"op": "array", "name": "a0", "init": [0, 1, 2]}]
+        for j in range(rng.choice([15, 30, 50])):
+            q, mr, i = f"q{j}", f"mr{j}", f"i{j}"
+            prog += [{"op": "qalloc", "q": q}, {"op": "gate", "g": rng.choice(["x", "h"]), "q": q},
+                     {"op": "meas", "q": q, "to": {"kind": "reg", "name": mr}, "inplace": False}]
+            body = []
+            for _k in range(rng.randrange(1, 4)):
+                tgt = rng.choice([{"kind": "reg", "name": mr}, {"kind": "entry", "array": "a0", "idx": rng.randrange(3)}])
+                other = rng.choice([{"kind": "var", "name": i}, 1, {"kind": "reg", "name": mr}, {"kind": "entry", "array": "a0", "idx": rng.randrange(3)}])
+                body.append({"op": "add", "target": tgt, "other": other, "mod": rng.choice([None, None, 3])})
+            kind = rng.choice(["loop", "loop", "foreach"])
+            if kind == "loop":
+                prog.append({"op": "loop", "var": i, "start": 0, "stop": rng.choice([1, 2, 3]), "step": 1, "form": rng.choice(["ctx", "cb"]), "body": body})
+            else:
+                body = [b if not (isinstance(b["other"], dict) and b["other"].get("kind") == "var") else dict(b, other={"kind": "fut", "name": "e" + i}) for b in body]
+                prog.append({"op": "foreach", "array": "a0", "var": "e" + i, "idxvar": None, "body": body})
+            prog.append({"op": "flush"})
+        yield {"kind": "regloops", "k": 1, "prog": prog, "script": [rng.randrange(2) for _ in range(64)]}
     for _ in range(ctx.n(8, 200)):
         # bursts of register measurements: M registers are classical registers too and must be recycled per flush
         k = rng.choice([1, 2, 3, 5, 8, 12, 16])
@@ -321,7 +366,7 @@ def run_case(ctx, case):
             if used:
                 ctx.fail(case, f"after flush {si} the measurement registers {used} are still marked in use "
                                f"(they are handed out again only if released at every flush)")
-        res = hostdiff.run_differential(prog, script, fail, ctx.count, on_top=mon, step_bound=400000, on_segment=after_flush,
+        res = hostdiff.run_differential(prog, script, fail, ctx.count, on_top=mon, on_nested=mon.nested, step_bound=400000, on_segment=after_flush,
                                         pipe_kw={"step_limit": 2000000}, check_host_handles=False)
     except hostdiff.Discard as d:
         ctx.count("discarded_" + str(d).split(":")[0].replace(" ", "_"))
